@@ -51,6 +51,8 @@ func (l Layout) String() string {
 			s += fmt.Sprintf(".T%v", st.Perm)
 		case "slice":
 			s += fmt.Sprintf(".slice(lo%v hi%v step%v)", st.Lo, st.Hi, st.Step)
+		case "spick":
+			s += fmt.Sprintf(".slice+pick(axis%d idx%d of%d; lo%v hi%v step%v)", st.Axis, st.Idx, st.Size, st.Lo, st.Hi, st.Step)
 		case "pick":
 			s += fmt.Sprintf(".pick(axis%d idx%d of%d)", st.Axis, st.Idx, st.Size)
 			if st.W > 1 {
@@ -71,6 +73,8 @@ func (l Layout) Kind() string {
 		switch st.Op {
 		case "T":
 			k += "+T"
+		case "spick":
+			k += "+slicepick"
 		case "pick":
 			k += "+pick"
 			if st.W > 1 {
@@ -150,9 +154,15 @@ func (st LStep) preShape(post []int) []int {
 		pre = append(pre, st.Size)
 		pre = append(pre, post[st.Axis:]...)
 		return pre
+	case "spick":
+		// one Slice call: a single index on one axis together with ranges on the others
+		return st.asPick().preShape(st.asSlice().preShape(post))
 	}
 	panic("HARNESS: unknown layout step " + st.Op)
 }
+
+func (st LStep) asPick() LStep  { return LStep{Op: "pick", Axis: st.Axis, Idx: st.Idx, Size: st.Size} }
+func (st LStep) asSlice() LStep { return LStep{Op: "slice", Lo: st.Lo, Hi: st.Hi, Step: st.Step} }
 
 // applyIdx applies a step to the model index array.
 func (st LStep) applyIdx(a Arr) Arr {
@@ -181,6 +191,8 @@ func (st LStep) applyIdx(a Arr) Arr {
 			r.E[k] = a.At(src)
 		}
 		return r
+	case "spick":
+		return st.asSlice().applyIdx(st.asPick().applyIdx(a))
 	case "pick":
 		post := append(append([]int{}, a.Shape[:st.Axis]...), a.Shape[st.Axis+1:]...)
 		r := Arr{DT: a.DT, Shape: post, E: make([]interface{}, prod(post))}
@@ -214,6 +226,29 @@ func (st LStep) applyLib(t *tensor.Dense) (*tensor.Dense, error) {
 			}
 			post := (d - st.Lo[j] - st.Hi[j]) / st.Step[j]
 			sl[j] = RS{st.Lo[j], st.Lo[j] + post*st.Step[j], st.Step[j]}
+		}
+		v, err := t.Slice(sl...)
+		if err != nil {
+			return nil, err
+		}
+		return v.(*tensor.Dense), nil
+	case "spick":
+		sh := t.Shape()
+		sl := make([]tensor.Slice, len(sh))
+		for i, d := range sh {
+			j := i // axis of the result
+			switch {
+			case i == st.Axis:
+				sl[i] = RS{st.Idx, st.Idx + 1, 0}
+				continue
+			case i > st.Axis:
+				j = i - 1
+			}
+			if d == 1 {
+				continue
+			}
+			post := (d - st.Lo[j] - st.Hi[j]) / st.Step[j]
+			sl[i] = RS{st.Lo[j], st.Lo[j] + post*st.Step[j], st.Step[j]}
 		}
 		v, err := t.Slice(sl...)
 		if err != nil {
@@ -651,8 +686,8 @@ func genSliceStep(t *rapid.T, rank int, stepped bool, label string) LStep {
 }
 
 // Layout kinds understood by genLayoutKind.
-var rmLayoutKinds = []string{"contig", "lazyT", "sliced", "stepsliced", "slicedT", "Tsliced", "picked", "materialized"}
-var c06LayoutKinds = []string{"contig", "lazyT", "sliced", "stepsliced", "materialized", "physT", "picked"}
+var rmLayoutKinds = []string{"contig", "lazyT", "sliced", "stepsliced", "slicedT", "Tsliced", "picked", "pickslice", "materialized"}
+var c06LayoutKinds = []string{"contig", "lazyT", "sliced", "stepsliced", "materialized", "physT", "picked", "pickslice"}
 var cmLayoutKinds = []string{"cmraw", "cmconv", "cmraw+sliced", "cmraw+lazyT", "cmconv+sliced"}
 
 // genLayoutKind draws a recipe of the named kind for an array of the given rank.
@@ -711,6 +746,14 @@ func genLayoutKind(t *rapid.T, kind string, rank int, label string) Layout {
 			st.Idx = rapid.IntRange(0, 1).Draw(t, label+"idx2")
 			st.Size = st.Idx + st.W + rapid.IntRange(0, 1).Draw(t, label+"tail")
 		}
+		l.Steps = []LStep{st}
+	case "pickslice":
+		// a single Slice call mixing one single index with ranges on the other axes
+		st := genSliceStep(t, rank, rapid.IntRange(0, 2).Draw(t, label+"st") == 0, label)
+		st.Op = "spick"
+		st.Axis = rapid.IntRange(0, rank).Draw(t, label+"axis")
+		st.Size = rapid.IntRange(2, 3).Draw(t, label+"size")
+		st.Idx = rapid.IntRange(0, st.Size-1).Draw(t, label+"idx")
 		l.Steps = []LStep{st}
 	case "materialized":
 		l.Steps = []LStep{genSliceStep(t, rank, rapid.Bool().Draw(t, label+"st"), label)}
